@@ -46,6 +46,10 @@ Setup ==
             [op |-> "SetDefault", h |-> "d2", u |-> AB],
             [op |-> "NewBundle", id |-> [p |-> "ex", ns |-> A, l |-> <<"b1">>], out |-> "sb"] >>
     [] Scenario \in {"c08", "c08b"} -> SetupWorld
+    [] Scenario = "c04" ->
+         << [op |-> "NewDoc", out |-> "d1"], [op |-> "AddNs", h |-> "d1", p |-> "ex", u |-> A],
+            [op |-> "NewDoc", out |-> "d2"], [op |-> "AddNs", h |-> "d2", p |-> "ex", u |-> A],
+            [op |-> "NewDoc", out |-> "d3"], [op |-> "AddNs", h |-> "d3", p |-> "e3", u |-> A] >>
     [] Scenario = "c12" ->
          SetupWorld \o
          << NR("d1", "entity", <<NamePL("ex", X)>>, <<>>,
@@ -95,6 +99,18 @@ RecMenu ==
          \cup
          { [k |-> "generation", id |-> <<>>,
             formals |-> << <<"entity", Ref(NamePL("ex", X))>> >>, extras |-> <<>>] }
+    [] Scenario = "c04" ->
+         { [k |-> "entity", id |-> <<NameQN("zz", A, X)>>, formals |-> <<>>, extras |-> <<>>],
+           [k |-> "entity", id |-> <<NameQN("ex", A, X)>>, formals |-> <<>>,
+            extras |-> << <<NameQN("ex", A, <<"attr">>), [t |-> "int", v |-> "1"]>> >>],
+           [k |-> "entity", id |-> <<NameQN("ex", A, X)>>, formals |-> <<>>,
+            extras |-> << <<NameQN("ex", A, <<"attr">>), [t |-> "int", v |-> "7"]>> >>],
+           [k |-> "agent", id |-> <<NameQN("ex", A, X)>>, formals |-> <<>>, extras |-> <<>>],
+           [k |-> "entity", id |-> <<NameQN("ex", A, Y)>>, formals |-> <<>>, extras |-> <<>>],
+           [k |-> "generation", id |-> <<>>, formals |-> << <<"entity", Ref(NameQN("ex", A, X))>> >>, extras |-> <<>>],
+           [k |-> "generation", id |-> <<NameQN("ex", A, <<"g">>)>>,
+            formals |-> << <<"entity", Ref(NameQN("ex", A, X))>> >>, extras |-> <<>>],
+           [k |-> "generation", id |-> <<>>, formals |-> << <<"entity", Ref(NameQN("ex", A, Y))>> >>, extras |-> <<>>] }
     [] Scenario = "c12" ->
          { [k |-> "entity", id |-> <<NamePL("ex", Y)>>, formals |-> <<>>, extras |-> <<>>] }
 
@@ -125,8 +141,13 @@ ActsMutate ==   \* C12 follow-up mutators on any live object
   \cup { [op |-> "AddNs", h |-> h, p |-> "mut", u |-> C] : h \in Live }
   \cup { [op |-> "SetDefault", h |-> h, u |-> AB] : h \in {x \in Live : ms.mgr[ms.con[x].mgr].dflt \in {NONE, AB}} }
 
+ActsBundle04 == { [op |-> "Bundle", h |-> h, id |-> NameQN("ex", A, <<"b1">>), out |-> h \o "b"]
+                    : h \in Docs \cap {"d1", "d2"} }
+ActsCompare == { [op |-> "CompareAll", hs |-> <<"d1", "d2", "d3">>] }
+Compared == Len(hist) > NSetup /\ hist[Len(hist)].op = "CompareAll"
 Menu ==
-  CASE Scenario = "c18" -> ActsNewRec \cup ActsAddRecord \cup ActsUpdate \cup ActsAddBundle
+  CASE Scenario = "c04" -> IF Compared THEN {} ELSE ActsNewRec \cup ActsBundle04 \cup ActsCompare
+    [] Scenario = "c18" -> ActsNewRec \cup ActsAddRecord \cup ActsUpdate \cup ActsAddBundle
                            \cup ActsDerive \cup ActsGet
     [] Scenario = "c09" -> ActsNewRec \cup ActsUpdate \cup ActsAddBundle \cup ActsBundle
                            \cup {a \in ActsDerive : a.op = "Flattened"}
@@ -148,6 +169,20 @@ Step(a) == /\ Len(hist) < NSetup + MaxDepth
 
 Next == \E a \in Menu : Applicable(a) /\ Step(a)
 Spec == Init /\ [][Next]_vars
+
+(* The observed step the model itself would log for the transition just taken *)
+ObsCon(st) == [h \in DOMAIN st.con |->
+                 [ProjCon(st.con[h]) EXCEPT !.recs = [i \in 1..Len(@) |-> [@[i] EXCEPT !.attrs = SetToSeq(@)]]]]
+(* (A) for C04: the library's == (Eq.tla) is reflexive, symmetric, transitive and is *)
+(* content equivalence, on every reachable triple of documents                       *)
+PropC04 ==
+  [][LET a == hist'[Len(hist')] IN
+     a.op = "CompareAll" =>
+       LET r == ApplyF(ms, a)
+           o == [op |-> a, exc |-> "none",
+                 res |-> [eq |-> r.res, ne |-> [i \in 1..3 |-> [j \in 1..3 |-> ~r.res[i][j]]], rec |-> <<>>],
+                 post |-> [con |-> ObsCon(ms)]]
+       IN \A cl \in {C04_refl(o), C04_sym(o), C04_ne(o), C04_trans(o), C04_content(o)} : cl.ok]_vars
 
 IndexOK == \A h \in DOMAIN ms.con : IndexCoherent(ms.con[h])
 =============================================================================
